@@ -60,6 +60,9 @@ func (c *containerServer) handleExecve(cmd *execCmd, msg unixsocket.Msg) error {
 		cmd.Argv[0] = exePath
 	}
 
+	// acked records that the host has acknowledged the sync: from then on the
+	// host waits for a result and answers it with a kill command
+	acked := false
 	syncPid := func(pid int) error {
 		msg := unixsocket.Msg{
 			Cred: &syscall.Ucred{
@@ -78,6 +81,7 @@ func (c *containerServer) handleExecve(cmd *execCmd, msg unixsocket.Msg) error {
 		if cmd.Cmd == cmdKill {
 			return fmt.Errorf("sync func: received kill")
 		}
+		acked = true
 		return nil
 	}
 	var syncFunc func(pid int) error
@@ -122,7 +126,17 @@ func (c *containerServer) handleExecve(cmd *execCmd, msg unixsocket.Msg) error {
 		if len(cmd.Argv) > 0 {
 			s = cmd.Argv[0]
 		}
-		return c.sendErrorReply("start: %s: %v", s, err)
+		if err := c.sendErrorReply("start: %s: %v", s, err); err != nil {
+			return err
+		}
+		if acked {
+			// the exec failed after the sync: the host takes the error reply as
+			// the result and sends the kill command, consume it here
+			if _, _, err := c.recvCmd(); err != nil {
+				return err
+			}
+		}
+		return nil
 	}
 	if cmd.SyncAfter {
 		if err := syncPid(1); err != nil {
